@@ -397,18 +397,39 @@ def swapped_argument_obligations(ctx: Context, rule: str) -> int:
 
 # --------------------------------------------------------------------------- obligations shared between properties
 
+_IN_PROGRESS: list[str] = []
+_SKIPS: list[str] = []
+
+
 def share_obligations(ctx: Context, module, rules: set, as_rule: str, only=None) -> int:
     """Run another property's rule module in a sub-context and adopt the obligations of `rules` under `as_rule`.
 
     Used where two properties rest on the same structural fact (e.g. C04's "holes are never
     returned" and C06's "invalid polygons are found over the full array")."""
-    sub = Context(ctx.p, ctx.prop, ctx.tier)
-    sub._flows, sub._cfgs, sub._types = ctx._flows, ctx._cfgs, ctx._types
-    try:
-        module.run(sub)
-    except Exception as exc:
-        if type(exc).__name__ != 'AbortRules':
-            raise
+    name = module.__name__
+    cache = ctx.p.__dict__.setdefault('_rule_runs', {})
+    if name in _IN_PROGRESS:
+        # a cycle of adoptions (C10 adopts from C02, which adopts from C06, which adopts from C10):
+        # the inner run proceeds without the facts of the module that is already being evaluated
+        _SKIPS.append(name)
+        ctx.instances.setdefault(as_rule, 0)
+        return 0
+    if name in cache:
+        sub = cache[name]
+    else:
+        sub = Context(ctx.p, ctx.prop, ctx.tier)
+        sub._flows, sub._cfgs, sub._types = ctx._flows, ctx._cfgs, ctx._types
+        before = len(_SKIPS)
+        _IN_PROGRESS.append(name)
+        try:
+            module.run(sub)
+        except Exception as exc:
+            if type(exc).__name__ != 'AbortRules':
+                raise
+        finally:
+            _IN_PROGRESS.pop()
+        if len(_SKIPS) == before:
+            cache[name] = sub
     n = 0
     for ob in sub.obligations:
         if ob.rule in rules and (only is None or only(ob)):
